@@ -19,7 +19,7 @@ from simv.tape import Tape
 
 ID = "C16"
 LEVEL = "exploration"
-QUICK_RUNS = 500
+QUICK_RUNS = 800
 CHUNK = 6
 RULE = ("seed -> schema, pool of 2-8 requests (1-3 documents; refused variants; fault sets; other variables / operation names), "
         "history of 5-25 steps (thorough: up to 40) each replaying a pool entry as str or bytes, alone or two concurrently, on an "
